@@ -224,9 +224,14 @@ bool ossOperationsFacet::SaveOperationResult(
 ) {
   auto& opHandle = operations.at(pid);
   assert(opHandle != nullptr);
-  const auto guard = core.DndGuard();
   const auto oldCoreHash = core.Src()(pid)->coreHash;
-  if (!core.Src().InputData(pid, std::move(opResult.value))) {
+  const auto stored = [&] {
+    // Note: only storing the result is shielded from source notifications. Checking the children below can make
+    // the source manager announce pending changes of their other operands, and those must be observed
+    const auto guard = core.DndGuard();
+    return core.Src().InputData(pid, std::move(opResult.value));
+  }();
+  if (!stored) {
     opHandle->broken = true;
     return false;
   } else {
